@@ -54,7 +54,7 @@ int main(int argc, char **argv)
     static char bound[2400];
     snprintf(bound, sizeof bound,
              "every sequence of <= %d operations over %d write operations (begin/end object/array, booleans, integers at every width boundary, double, "
-             "string_with_len 0/1/127/128/300, write_string, write_name, bytes 0/1/128, write_raw 0/2, parser_to_writer)%s x EVERY capacity from 0 to encoded size + 1; "
+             "string_with_len 0/1/127/128/300, write_string, write_name, bytes 0/1/128, write_raw 0/2, parser_to_writer, write_raw from a source inside the writer's own buffer overlapping the destination from below / from above)%s x EVERY capacity from 0 to encoded size + 1; "
              "destination = heap block of exactly 'capacity' bytes pre-filled with 0xA5, under ASan",
              CF.K, CF.nalpha, (CF.with_noenc || CF3.K) ? ", plus each of 6 calls that have no encoding (length > INT32_MAX, SIZE_MAX, NULL sources, raw lengths that wrap the counter) inserted at every position of every sequence of <= 3 operations" : "");
     snprintf(bound + strlen(bound), sizeof bound - strlen(bound), "; every sequence of <= %d operations over 7 operations incl. string_with_len(40000) and bytes(32768) x every capacity within 3 of a piece boundary", CF4.K);
